@@ -552,7 +552,7 @@ func (s *State) evalBuiltin(node *ast.Builtin) object.Object {
 	var val object.Object
 	var rt object.Type
 	if minV > 0 && !varArg { // print, log and error evaluate all their arguments themselves (once).
-		val = s.evalInternal(node.Parameters[0])
+		val = s.noControl(s.evalInternal(node.Parameters[0]))
 		rt = val.Type()
 		if rt == object.ERROR && t != token.LOG && t != token.CATCH { // log can log (and thus catch) errors.
 			return val
@@ -898,10 +898,22 @@ func (s *State) extendFunctionEnv(
 
 // Each expression yields its value as of when it is evaluated (left to right), not a (live) reference to an
 // outer variable which a later expression of the list, or later code, may change - except where keepRef says so.
+// noControl: break / continue / return aren't values, they can't be elements or arguments (where they used to be
+// stored as is, and then panicked when compared or hashed).
+func (s *State) noControl(o object.Object) object.Object {
+	if rv, ok := o.(object.ReturnValue); ok {
+		if rv.ControlType != token.RETURN {
+			return s.Errorf("unexpected control type %v outside of for loops", rv.ControlType)
+		}
+		return rv.Value
+	}
+	return o
+}
+
 func (s *State) evalExpressions(exps []ast.Node, keepRef func(i int) bool) ([]object.Object, *object.Error) {
 	result := object.MakeObjectSlice(len(exps)) // not that this one can ever be huge but, for consistency.
 	for i, e := range exps {
-		evaluated := s.evalInternal(e)
+		evaluated := s.noControl(s.evalInternal(e))
 		if rt := evaluated.Type(); rt == object.ERROR {
 			oerr := evaluated.(object.Error)
 			return nil, &oerr
